@@ -66,13 +66,21 @@ def main():
         res["confirmed"] = (res["demo_on_unmodified"][0] == 0 and res["demo_on_patched"][0] != 0 and ap.returncode == 0
                             and res["patched_build_rc"] == 0)
         res["checks"] = {}
+        priv = tempfile.mkdtemp(prefix="seedpriv-")
+        sh("cp -r %s/coq %s/coq" % (V, priv))
+        os.makedirs(os.path.join(priv, "build"))
+        os.makedirs(os.path.join(priv, "evidence"))
         for p in props:
-            env = dict(os.environ, DRF_REPO=wt)
+            env = dict(os.environ, DRF_REPO=wt, DRF_COQ=os.path.join(priv, "coq"), DRF_BUILD=os.path.join(priv, "build"),
+                       DRF_EVIDENCE=os.path.join(priv, "evidence"))
             c = subprocess.run(["./check", p, "--tier", "quick"], capture_output=True, text=True, env=env, cwd=V)
             lines = [ln for ln in c.stdout.splitlines() if ln.startswith(("VIOLATION", "OK ", "KNOWN-FINDING"))]
             res["checks"][p] = {"exit": c.returncode, "lines": lines[:6]}
-            # evidence files were rewritten for the patched tree: restore them from git
-            sh("git -C %s checkout -- evidence/%s.json" % (V, p))
+        rp = os.path.join(priv, "build", "replay")
+        if os.path.isdir(rp):
+            shutil.rmtree(os.path.join(dst, "replay"), True)
+            shutil.copytree(rp, os.path.join(dst, "replay"))
+        shutil.rmtree(priv, True)
     finally:
         sh("git -C /repo worktree remove --force %s" % wt)
     meta["verification"] = res
